@@ -35,6 +35,7 @@ type recBlock struct {
 
 type abciRecorder struct {
 	mu      sync.Mutex
+	enabled bool // InitChain requests are kept only while a record / replay stream is running
 	inits   map[*simapp.SimApp]*abci.RequestInitChain
 	blocks  map[*simapp.SimApp][]recBlock
 	watched map[*simapp.SimApp]bool
@@ -47,13 +48,8 @@ func init() { simapp.ABCIRecorder = recorder }
 func (r *abciRecorder) InitChain(app *simapp.SimApp, req *abci.RequestInitChain, res *abci.ResponseInitChain) {
 	r.mu.Lock()
 	defer r.mu.Unlock()
-	// keep only the most recent few: apps are created per case and never reused
-	if len(r.inits) > 64 {
-		for k := range r.inits {
-			if !r.watched[k] {
-				delete(r.inits, k)
-			}
-		}
+	if !r.enabled {
+		return
 	}
 	cp := *req
 	r.inits[app] = &cp
@@ -83,6 +79,17 @@ func (r *abciRecorder) stop(app *simapp.SimApp) []recBlock {
 	delete(r.watched, app)
 	delete(r.blocks, app)
 	return b
+}
+
+// forget drops everything kept for the applications of a finished case
+func (r *abciRecorder) forget(apps ...*simapp.SimApp) {
+	r.mu.Lock()
+	defer r.mu.Unlock()
+	for _, a := range apps {
+		delete(r.inits, a)
+		delete(r.blocks, a)
+		delete(r.watched, a)
+	}
 }
 
 func (r *abciRecorder) initOf(app *simapp.SimApp) *abci.RequestInitChain {
